@@ -496,7 +496,8 @@ class OpSpec:
 
 
 INT_VALUES = (0, 1, -1, 7, 42, -50)
-STR_VALUES = ("", "x", "hé", 'q"uo\\te', "two words", "line\nbreak")
+STR_VALUES = ("", "x", "hé", 'q"uo\\te', "two words", "line\nbreak",
+              "snow ☃ and 🎈 astral")
 
 
 class OpGen:
@@ -535,6 +536,17 @@ class OpGen:
             return str(v), v, v
         if base == "String":
             v = STR_VALUES[st.below(len(STR_VALUES), "str")]
+            shape = st.below(3, "str_shape")
+            if any(ord(ch) > 0xFFFF for ch in v):
+                # astral characters are written raw: how a \uD83C\uDF88
+                # escape pair decodes is a lexer matter (C02), not workload
+                shape = 1
+            if shape == 1:
+                # raw (unescaped) non-ASCII characters in the document
+                return json.dumps(v, ensure_ascii=False), v, v
+            if shape == 2 and v and v.strip() == v and '"' not in v \
+                    and "\\" not in v and "\n" not in v:
+                return '"""%s"""' % v, v, v  # block string form
             return json.dumps(v), v, v
         if base == "Boolean":
             v = bool(st.below(2, "bool"))
